@@ -5245,23 +5245,37 @@ func (a *Agent) TaskDispatch(RequestID uint32, CommandID uint32, Parser *parser.
 									if teamserver.AgentExist(AgentHdr.AgentID) {
 
 										DemonInfo = teamserver.AgentInstance(AgentHdr.AgentID)
-										Message["MiscType"] = "reconnect"
-										Message["MiscData"] = fmt.Sprintf("%v;%x", a.NameID, AgentHdr.AgentID)
 
-										// detach from the previous parent (its links, the parent pointer and the db row)
-										if DemonInfo.Pivots.Parent != nil {
-											teamserver.LinkRemove(DemonInfo.Pivots.Parent, DemonInfo, true)
+										// an agent cannot become a pivot of itself or of one of its own pivots
+										var Cyclic = false
+										for Ancestor := a; Ancestor != nil; Ancestor = Ancestor.Pivots.Parent {
+											if Ancestor == DemonInfo {
+												Cyclic = true
+												break
+											}
 										}
 
-										DemonInfo.Active = true
-										DemonInfo.Reason = ""
-										DemonInfo.Pivots.Parent = a
+										if Cyclic {
+											DemonInfo = nil
+										} else {
+											Message["MiscType"] = "reconnect"
+											Message["MiscData"] = fmt.Sprintf("%v;%x", a.NameID, AgentHdr.AgentID)
 
-										a.Pivots.Links = append(a.Pivots.Links, DemonInfo)
-										teamserver.LinkAdd(a, DemonInfo)
+											// detach from the previous parent (its links, the parent pointer and the db row)
+											if DemonInfo.Pivots.Parent != nil {
+												teamserver.LinkRemove(DemonInfo.Pivots.Parent, DemonInfo, true)
+											}
 
-										teamserver.AgentUpdate(DemonInfo)
-										teamserver.AgentUpdate(a)
+											DemonInfo.Active = true
+											DemonInfo.Reason = ""
+											DemonInfo.Pivots.Parent = a
+
+											a.Pivots.Links = append(a.Pivots.Links, DemonInfo)
+											teamserver.LinkAdd(a, DemonInfo)
+
+											teamserver.AgentUpdate(DemonInfo)
+											teamserver.AgentUpdate(a)
+										}
 
 									} else {
 										// if the agent doesn't exist then we assume that it's a register request from a new agent
